@@ -61,7 +61,9 @@ def judge (op : List String) (go : String) : Verdict :=
         let bad := if small then firstBad 2 f else none
         let tags := tags ++ (if small then [if bad.isSome then "judge:nonlinear" else "judge:linear"] else ["judge:skipped"])
         if small && goErrs == "ok" && bad.isSome then
-          let cls := if b.hasLoop && b.hasHalt then "accepts-nonlinear-loop-then-halt" else "accepts-nonlinear"
+          let cls := if b.hasLoop && b.hasHalt then "accepts-nonlinear-loop-then-halt"
+            else if b.hasLoop && b.hasJumpRetBranch then "accepts-nonlinear-jump-in-returning-branch"
+            else "accepts-nonlinear"
           .violation cls "rejected(some-path-not-linear)" (nt ++ tags)
         else if small && bad.isNone && !kinds.contains "UnreachableStatementError" &&
             (kinds.contains "ResourceLossError" || kinds.contains "ResourceUseAfterInvalidationError") then
